@@ -219,7 +219,21 @@ def rule_flow(run):
         only_reported = [n for n in walk_no_nested(fi.node) if isinstance(n, ast.Call) and call_name(n) == 'print'
                          and any(isinstance(y, ast.Name) and y.id in collected for y in ast.walk(n))]
         miss = [w for w, f in (('generatorlist', removed_list), ('generator', removed_dict)) if not f]
-        run.violated(key, 'generators of types TOUGH2 lacks are collected in %s but never removed from %s%s: they survive '
+        # a container the function does write (rebuilt through a local, filled by a loop, ...) in a way this syntactic pass does not
+        # follow is decided by the interpretation on model generator lists below, not here
+        def written(w):
+            for n in walk_no_nested(fi.node):
+                if isinstance(n, (ast.Assign, ast.AugAssign, ast.Delete)):
+                    ts = n.targets if not isinstance(n, ast.AugAssign) else [n.target]
+                    for t in ts:
+                        while isinstance(t, ast.Subscript): t = t.value
+                        if norm(t) == 'self.' + w: return True
+                if isinstance(n, ast.Call) and isinstance(n.func, ast.Attribute) and norm(n.func.value) == 'self.' + w and \
+                   n.func.attr in ('pop', 'remove', 'clear', 'update', '__delitem__'): return True
+            return False
+        if all(written(w) for w in miss):
+            run.ok(key, {'collected_in': sorted(collected), 'decided_by': 'interpretation on model generator lists'}, where=fi.where())
+        else: run.violated(key, 'generators of types TOUGH2 lacks are collected in %s but never removed from %s%s: they survive '
                      'the conversion' % (sorted(collected), ' and '.join('self.' + m for m in miss),
                                          ' (the list is only printed)' if only_reported else ''), where=fi.where())
     # ... on every combination of kept and deleted generators: the function is interpreted on model generator lists
